@@ -608,12 +608,17 @@ def tailStage (R : ResolvedInst) (inst : Inst) (operands : List Operand) (combin
       if test iflags ifRepIgnored then .invalidExtraReg
       else if eid < virtIdMin && eid ≠ gpIdCx then .invalidExtraReg
       else match memOp with
-        | some bt => if et ≠ bt then .invalidExtraReg else .ok
+        | some bt =>
+          if et ≠ bt then .invalidExtraReg
+          -- (fix C14-15) a virtual count register needs kEnableVirtRegs (never set here)
+          else if eid ≥ virtIdMin then .illegalVirtReg else .ok
         | none => .invalidExtraReg
     else if test iflags ifEvex then
       if et ≠ rtMask then .invalidExtraReg
       else if eid = 0 || !test avx avxK then .invalidKMaskUse
-      else .ok
+      -- (fix C14-15) there are only 8 mask registers; a virtual one needs kEnableVirtRegs (never set here)
+      else if eid < virtIdMin then (if eid > 7 then .invalidPhysId else .ok)
+      else .illegalVirtReg
     else .invalidExtraReg
 
 /-- `validate()` after `inst_info_by_id`: everything it does with the instruction's data `R`, stage by stage in the order of
@@ -628,6 +633,8 @@ def validateR (R : ResolvedInst) (inst : Inst) (operands : List Operand) : Err :
     if e4 ≠ .ok then e4 else tailStage R inst operands combinedFlags
 
 def validate (T : SigTables) (inst : Inst) (operands : List Operand) : Err :=
+  -- (fix C14-15) `Inst::kIdNone` has a row but is not an instruction
+  if inst.id = 0 then .invalidInstruction else
   match resolve T inst.id with
   | none => .invalidInstruction       -- `!Inst::is_defined_id(inst_id)`
   | some R => validateR R inst operands
